@@ -4,6 +4,7 @@ import (
 	"context"
 	"errors"
 	"fmt"
+	"strings"
 	"sync"
 	"testing"
 	"testing/synctest"
@@ -38,10 +39,85 @@ func TestC19(t *testing.T) {
 	r := rt.Start(t, "C19")
 	nRetry := r.N(2400, 24000)
 	nTimed := r.N(300, 3000)
-	total := nRetry + nTimed
+	nSlow := r.N(120, 1200)
+	total := nRetry + nTimed + nSlow
 	rds := []time.Duration{time.Millisecond, time.Second, 10 * time.Second, 250 * time.Millisecond}
 	r.Each(t, total, 0, nil, func(t *testing.T, c *rt.Case) {
 		rng := c.Rand()
+		if c.I >= nRetry+nTimed {
+			// ---- progress arriving while a (slow) retry callback is running ----
+			k := c.I - nRetry - nTimed
+			rc := uint(1 + k%4)
+			// Real time, not a bubble: the callback runs with the transaction's mutex held, and a goroutine
+			// blocked on a sync.Mutex keeps a synctest clock from advancing. The verdict uses counts and a
+			// lower time bound only (a timer never fires early), never an upper wall-clock bound.
+			rd := []time.Duration{40 * time.Millisecond, 60 * time.Millisecond, 25 * time.Millisecond}[(k/4)%3]
+			slowAt := 1 + (k/12)%int(rc)                      // which callback is slow
+			busy := rd * time.Duration(40+rng.Intn(30)) / 100  // how long it takes
+			off := busy * time.Duration(30+rng.Intn(30)) / 100 // progress arrives this long after the callback started
+			c.Desc = fmt.Sprintf("slow callback rc=%d rd=%v slow=#%d busy=%v progress at +%v", rc, rd, slowAt, busy, off)
+			var log txLog
+			var progressAt time.Duration
+			func() {
+				log.t0 = time.Now()
+				ctx, cancel := context.WithCancel(context.Background())
+				defer cancel()
+				ncb := 0
+				var tx *transactions.RetryTransaction
+				tx = transactions.NewRetryTransaction(ctx, rd, rc, func(d interface{}) error {
+					ncb++
+					log.add("cb:%v", d)
+					if ncb == slowAt {
+						time.Sleep(busy)
+					}
+					return nil
+				}, func() { log.add("finally") })
+				go func() { <-tx.Done(); log.add("done:%v", tx.Err()) }()
+				tx.Proceed("s", 0)
+				time.Sleep(time.Duration(slowAt)*rd + off)
+				progressAt = time.Since(log.t0)
+				tx.Proceed("s2", 1)
+				select {
+				case <-tx.Done():
+				case <-time.After(time.Duration(rc+4)*rd + 20*time.Second):
+				}
+				time.Sleep(2 * rd)
+			}()
+			after, doneAt, doneErr := 0, time.Duration(-1), ""
+			slowStart, n0 := time.Duration(-1), 0
+			for _, e := range log.snapshot() {
+				if strings.HasPrefix(e, "cb:0@") {
+					n0++
+					if n0 == slowAt {
+						slowStart, _ = time.ParseDuration(e[5:])
+					}
+				}
+			}
+			if slowStart < 0 || progressAt <= slowStart || progressAt >= slowStart+busy {
+				// scheduling jitter: the progress did not arrive while the slow callback was running
+				c.Inconclusive("progress missed the slow callback window (real-time jitter)")
+				return
+			}
+			for _, e := range log.snapshot() {
+				var d time.Duration
+				if i := strings.LastIndex(e, "@"); i > 0 {
+					d, _ = time.ParseDuration(e[i+1:])
+				}
+				if strings.HasPrefix(e, "cb:1@") {
+					after++
+				}
+				if strings.HasPrefix(e, "done:") {
+					doneAt, doneErr = d, e[5:strings.LastIndex(e, "@")]
+				}
+			}
+			lo := progressAt + time.Duration(rc+1)*rd
+			hi := "unbounded (real time)"
+			if after != int(rc) || doneErr != transactions.ErrNoMoreRetries.Error() || doneAt < lo {
+				c.Violation("retry|progress-during-callback", fmt.Sprintf("Proceed at %v while retry callback #%d (busy %v) was running, rc=%d rd=%v: %d retries with the new data (expected %d), Done %q at %v (expected 'no more retries' within [%v,%v])", progressAt, slowAt, busy, rc, rd, after, rc, doneErr, doneAt, lo, hi), map[string]interface{}{"log": log.snapshot()})
+			}
+			c.Key("slow|%d|%v|%d", rc, rd, slowAt)
+			return
+		}
 		if c.I >= nRetry {
 			// ---- timed transaction ----
 			k := c.I - nRetry
@@ -193,5 +269,5 @@ func TestC19(t *testing.T) {
 			r.Sample(map[string]interface{}{"retry_count": rc, "retry_delay": rd.String(), "schedule": fmt.Sprint(sched), "observed": got})
 		}
 	})
-	r.Finish("one schedule per case, run on the real RetryTransaction / TimedTransaction in a synctest bubble (virtual time): RetryCount 0..5 x RetryDelay {1ms,250ms,1s,10s} x 0..3 Proceed events x final {none,Success,Fail}, each event placed k whole delays + {10,25,50,75,90}% of a delay after the previous reset (never on a tick); timed: timeout {1ms,1s,5s} x {no completion, Success, Fail at 1..99% of the timeout}. Oracle: the exact list of (callback data, virtual time) and (Done, Err, virtual time) events equals a reference simulation. Distinct by (rc, rd, #progress, final, #expected events).", nil)
+	r.Finish("one schedule per case, run on the real RetryTransaction / TimedTransaction in a synctest bubble (virtual time): RetryCount 0..5 x RetryDelay {1ms,250ms,1s,10s} x 0..3 Proceed events x final {none,Success,Fail}, each event placed k whole delays + {10,25,50,75,90}% of a delay after the previous reset (never on a tick); timed: timeout {1ms,1s,5s} x {no completion, Success, Fail at 1..99% of the timeout}; slow-callback cases: the k-th retry callback takes 10-70% of a delay and Proceed arrives while it runs (the full budget must follow the progress). Oracle: the exact list of (callback data, virtual time) and (Done, Err, virtual time) events equals a reference simulation. Distinct by (rc, rd, #progress, final, #expected events).", nil)
 }
